@@ -12,10 +12,19 @@ from typing import Any, Dict, List, Tuple
 from ..util import make_cfg, pmap
 
 
+EMPTY_ETAG = [None]      # per case: the etag whose payload is the empty object (a legal payload, not "missing")
+
+
 def P(e: int) -> Dict[str, Any]:
     """payload of etag e: dotted / arrow ids as keys, typed scalars"""
+    if e == EMPTY_ETAG[0]:
+        return {}
     edges = {f"n.{e}→n.{e+1}": {"id": f"n.{e}→n.{e+1}", "src": f"n.{e}", "dst": f"n.{e+1}", "weight": 0.25 * e, "rel": "coact", "attrs": {}},
-             "a→b": {"id": "a→b", "src": "a", "dst": "b", "weight": 0.5, "rel": "coact", "attrs": {}}}
+             "a→b": {"id": "a→b", "src": "a", "dst": "b", "weight": 0.5, "rel": "coact", "attrs": {}},
+             # ids with the code points str.splitlines() also breaks on (NEL, LS, PS) and other odd whitespace:
+             # the header+payload file format is line based
+             "l\u2028s→p\u2029s": {"id": "l\u2028s→p\u2029s", "src": "l\u2028s", "dst": "p\u2029s", "weight": 0.125, "rel": "co\u0085act",
+                                   "attrs": {"note": "x\x0by\x0cz\x1c\x1d\x1e"}}}
     return {"version_etag": str(e), "schema_version": "v1", "marker": {"e": e, "flag": bool(e % 2), "one": 1 if e > 1 else True},
             "store": {"weights": {f"n.{e}": 0.5, "n.1": 0.1 * e}},
             "gel": {"nodes": {f"n.{e}": {"id": f"n.{e}", "label": "x"}}, "edges": edges,
@@ -31,6 +40,7 @@ def replay_history(case) -> List[Tuple[str, str, str]]:
     logging.disable(logging.CRITICAL)
     import clematis.engine.snapshot as S
     h = case["h"]
+    EMPTY_ETAG[0] = case.get("empty_etag")
     d = tempfile.mkdtemp(prefix="c07s_", dir=case["workdir"])
     fails: List[Tuple[str, str, str]] = []
     clock = [1_700_000_000]
@@ -106,6 +116,8 @@ def replay_history(case) -> List[Tuple[str, str, str]]:
                     # payload where the spec expects absence (or the reverse) is a divergence
                     if {got, want["r"]} <= {"raised", "absent"}:
                         pass
+                    elif want["e"] == EMPTY_ETAG[0] and {got, want["r"]} <= {"payload", "absent"}:
+                        pass        # the empty payload and "absent" ({}) are the same observation
                     else:
                         fails.append(("DiskRoundTrip", op, f"{op}({step['e']}) -> {got}, spec says {want['r']} (history {h[:-1]})"))
             elif op == "load_latest":
@@ -119,7 +131,9 @@ def replay_history(case) -> List[Tuple[str, str, str]]:
                     break
                 ver = state.get("version_etag")
                 edges = (state.get("graph") or {}).get("edges") or {}
-                if want["r"] == "loaded":
+                if want["r"] == "loaded" and want["e"] == EMPTY_ETAG[0]:
+                    pass        # the empty object carries no version / graph: nothing to compare beyond "did not raise"
+                elif want["r"] == "loaded":
                     exp = P(want["e"])
                     exp_keys = set()
                     for k, rec in exp["gel"]["edges"].items():
@@ -149,8 +163,11 @@ def check(run) -> None:
         raise TLCError("SnapshotStore without LoadFallback should violate NoMixedState")
     run.ok("Model.loader_without_fallback_refuted")
     cases = [dict(c, workdir=run.workdir) for c in res.emitted]
+    # the same histories with the empty object as the payload of etag 1 (every seventh history, etag 2 for some)
+    cases += [dict(c, workdir=run.workdir, empty_etag=1 + (i // 7) % 2) for i, c in enumerate(res.emitted) if i % 7 == 0]
     outs = pmap(replay_history, cases, chunk=50)
-    for c, fails in zip(res.emitted, outs):
+    for c0, fails in zip(cases, outs):
+        c = {k: v for k, v in c0.items() if k != "workdir"}
         run.traces += 1
         run.case(("store", json.dumps(c, sort_keys=True)))
         if not fails:
